@@ -370,9 +370,12 @@ def rule_append_cut(ctx) -> None:
     # signatures: appended after signing the exported image, removed by cert_block.signature_size
     for cn, cb in (("Mbi_ExportMixinRsaSign", "CertBlockV1"), ("Mbi_ExportMixinEccSign", "CertBlockV21")):
         sg = ctx.own(MIX, cn, "sign")
-        rv = [s for s in A.body_of(sg.node) if isinstance(s, ast.If) and norm(s.test) == "revert"]
-        cut = bool(rv) and any(norm(x) == "image.binary = image.binary[:-self.cert_block.signature_size]" for x in rv[0].body) and isinstance(rv[0].body[-1], ast.Return)
-        typ = bool(rv) and any(isinstance(x, ast.If) and norm(x.test) == f"not isinstance(self.cert_block, {cb})" and A.always_raises(x.body) for x in rv[0].body)
+        gp = A.gpaths(sg.node)
+        rev = [q for q in gp if q.assumes("revert", True)]
+        # every returning revert path cuts exactly signature_size bytes; a cert block of another type never reaches the cut
+        cut = any(q.end == "return" for q in rev) and all(q.has("image.binary = image.binary[:-self.cert_block.signature_size]") for q in rev if q.end == "return")
+        typ = any(q.end == "raise" and q.assumes(f"isinstance(self.cert_block, {cb})", False) for q in rev) and \
+            all(q.assumes(f"isinstance(self.cert_block, {cb})", True) for q in rev if q.end == "return")
         app = [c for c in A.calls_in(sg.node, "append_image")]
         gs = [c for c in A.calls_in(sg.node, "get_signature")]
         arg = norm(A.inline_locals(sg.node, gs[0].args[0])) if gs else ""
